@@ -341,8 +341,15 @@ def d3(cx: Cx, ob: Ob) -> None:
         conv = ("param", fn.params[0].name)
         calls = [c for c, ev, _ in s.calls("expand_pair") if op(c[1]) == "attr" and c[1][1] == conv]
         for c in calls[:1]:
-            if c[3]:
-                ob.violate(handler.qualname, handler.where, f"the {fw} handler passes {[k for k, _ in c[3]]} to expand_pair: the answer differs from expand()", detail="flags")
+            ep = cx.model.functions.get("curies.api.Converter.expand_pair")
+            nondefault = []
+            for k, v in c[3]:
+                prm = ep.param(k) if ep is not None and k is not None else None
+                dflt = prm.default.value if prm is not None and isinstance(prm.default, ast.Constant) else ("?",)
+                if not (is_const(v) and v[1] == dflt and type(v[1]) is type(dflt)):
+                    nondefault.append(k)
+            if nondefault:
+                ob.violate(handler.qualname, handler.where, f"the {fw} handler passes {nondefault} to expand_pair with non-default values: the answer differs from expand()", detail="flags")
         if not calls:
             continue
         loc = calls[0]
